@@ -17,9 +17,11 @@ PROPS = {
             'cursor discipline: the cursor only moves forward, never past the end; a text that is not sexagesimal leaves it untouched',
             'number tokens: an integer field is exactly its digits (single `_` only between digits), value folded digit by digit; a fraction uses its first 18 digits; a number literal is handed to f64::from_str as exactly its characters minus `_` separators; `.inf` / `.nan` case-insensitively; at most MAX_NUM_DIGITS digits',
             'unit flags: a sexagesimal value always carries a unit; at the top a Degrees tag converts a unitless value exactly once and a Degrees tag on an expression mixing unitised and plain terms is rejected',
+            'standard precedence: a relational REFERENCE SEMANTICS of the expression language is written as spec functions (contracts/robotics.spec.rs: expr = term ((+|-) term)*, term = unary ((*|/) unary)*, both left-associative, unary = sign* primary, primary = (expr) | number | pi | tau | inf | nan | deg(expr) | rad(expr), blanks skipped where the grammar allows) and expr / term / unary / primary / parse_ident_or_special are proved to return exactly a value the reference relates to the text they consumed; the top-level entry returns the reference value of the WHOLE text with the tag applied once (deg() converts once, rad() not at all, tau = 2*pi, nesting depth counted)',
         ],
         not_covered=[
             'IEEE-754 arithmetic itself: + - * / neg, casts and f64::from_str are uninterpreted functions here, so exactness of the numeric result is relative to them',
+            'the value formulas of sexagesimal literals (hh:mm:ss vs degrees) are only constrained to carry a unit; completeness (every text the reference accepts is accepted) is not stated, only soundness of accepted results',
             'that ordinary float literals evaluate to the same value with the option on and off (needs f64::from_str semantics); the dispatch in parse_scalars::parse_yaml12_float; the deserialize_f32/f64 entry points',
         ],
         assumptions=['float operations, casts and f64::from_str are opaque (contracts/robotics.shim.rs); UTF-8 self-synchronisation axiom (contracts/crop.spec.rs)',
